@@ -139,6 +139,16 @@ func vxTemplates() []vxTemplate {
 			},
 			edb: []ast.PredicateSym{vxP("par", 2)}, idb: []ast.PredicateSym{vxP("sg", 2)},
 		},
+		{ // 12: NOT stratifiable (recursion through negation over four predicates); C05 only: every presentation must be rejected
+			name: "unstratifiable-cycle",
+			rules: []ast.Clause{
+				vxRule(vxA("win", "X"), vxA("pos", "X"), vxNot(vxA("lose", "X"))),
+				vxRule(vxA("lose", "X"), vxA("step", "X")),
+				vxRule(vxA("step", "X"), vxA("hop", "X")),
+				vxRule(vxA("hop", "X"), vxA("win", "X")),
+			},
+			edb: []ast.PredicateSym{vxP("pos", 1)}, idb: []ast.PredicateSym{vxP("win", 1), vxP("lose", 1), vxP("step", 1), vxP("hop", 1)},
+		},
 	}
 }
 
